@@ -28,6 +28,13 @@ SetRef == /\ More /\ Ev.op = "set_reference"
           /\ UNCHANGED <<ecfg, mtotal, msince, estate, etotal, esince, ecnt>>
           /\ Chk("ens.total", etotal', Ev.total) /\ Chk("ens.since", esince', Ev.since)
           /\ Adv
-Next == Upd \/ Rst \/ SetRef
+(* an update every member refuses (several observations at once): the first member raises, nothing is counted - neither by the members nor
+   by the ensemble itself -, and no state changes except that the first member may have performed its pending restart before it validated *)
+Refused == /\ More /\ Ev.op = "refused"
+           /\ AsIfAlone
+           /\ mstate' = [i \in 1..N |-> Ev.m[i].state]
+           /\ UNCHANGED <<ecfg, mtotal, msince, estate, etotal, esince, ecnt>>
+           /\ Own /\ Adv
+Next == Upd \/ Rst \/ SetRef \/ Refused
 Spec == Init /\ [][Next]_tvars
 =============================================================================
